@@ -64,6 +64,9 @@ var builds = map[string]buildSpec{
 	"racepurego": {Name: "racepurego", Tags: []string{"purego"}, Race: true},
 	// a real 32-bit target: the 32-bit limb backends selected by GOARCH (not by tag) AND a 32-bit native int/uint
 	"i386": {Name: "i386", Env: []string{"GOARCH=386"}},
+	// the amd64 micro-architecture level is a build-time choice that selects other instruction sequences in the
+	// compiler's output and in hand-written assembly guarded by GOAMD64_v3
+	"v3": {Name: "v3", Env: []string{"GOAMD64=v3"}},
 }
 
 var configs = map[string]configSpec{
@@ -74,6 +77,14 @@ var configs = map[string]configSpec{
 	"race":       {Name: "race", Build: "race"},
 	"racepurego": {Name: "racepurego", Build: "racepurego"},
 	"i386":       {Name: "i386", Build: "i386"},
+	"v3":         {Name: "v3", Build: "v3"},
+	// every optional CPU feature reported as absent (AVX2 and BMI2, ADX, ... alike)
+	"nocpu": {Name: "nocpu", Build: "default", Env: []string{"GODEBUG=cpu.all=off"}},
+	// scheduling-dependent code sees other numbers of Ps (values that do not divide powers of two included)
+	"purego-p6": {Name: "purego-p6", Build: "purego", Env: []string{"GOMAXPROCS=6"}},
+	"asm-p3":    {Name: "asm-p3", Build: "default", Env: []string{"GODEBUG=cpu.avx2=off", "GOMAXPROCS=3"}},
+	"u32-p1":    {Name: "u32-p1", Build: "force32bit", Env: []string{"GOMAXPROCS=1"}},
+	"avx2-p7":   {Name: "avx2-p7", Build: "default", Env: []string{"GOMAXPROCS=7"}},
 }
 
 var all4 = []string{"avx2", "asm", "purego", "u32"}
